@@ -421,6 +421,8 @@ macro_rules! gen_builder {
             let id = *id;
             b.$finalize(move || {
               log.mark(id, "finalize", 0);
+              // a harness hook: a check may let finalize callbacks act (see C02)
+              crate::log::fire_local_pub(id, &N::Complete);
             })
             .box_it()
           }
